@@ -80,6 +80,35 @@ M = [
   "        self.child_inlines()\n            .iter()\n            .find_map(|child| child.link_at_position(position))\n    }\n}\n\n#[derive(Clone, Copy, PartialEq, Eq, Hash, Debug)]\npub enum LinkType", "        self.child_inlines()\n            .iter()\n            .skip(1)\n            .find_map(|child| child.link_at_position(position))\n    }\n}\n\n#[derive(Clone, Copy, PartialEq, Eq, Hash, Debug)]\npub enum LinkType", {"C13": 2}),
  ("benign_link_at_position_spelled_out", "crates/liwe/src/model/document.rs",
   "        if self.inline_range().contains(&position) && self.is_link() {", "        let r = self.inline_range();\n        if self.is_link() && r.start <= position && position < r.end {", {"C13": 0}),
+ ("benign_add_node_and_match_bool", "crates/liwe/src/graph/builder.rs",
+  "        if self.insert {\n            self.graph.node_mut(self.id).set_child_id(node.id());\n            self.insert = false;\n        } else {\n            self.graph.node_mut(self.id).set_next_id(node.id());\n        }\n\n        self.id = node.id();",
+  "        let new_id = node.id();\n        if self.insert {\n            self.insert = false;\n            self.graph.node_mut(self.id).set_child_id(new_id);\n        } else {\n            self.graph.node_mut(self.id).set_next_id(new_id);\n        }\n\n        self.id = new_id;", {"C20": 0, "C01": 0}),
+ ("benign_delete_branch_match", "crates/liwe/src/graph/arena.rs",
+  "        if let Some(line_id) = self.node(from_id).line_id() {\n            self.lines[line_id as usize] = Line::new(line_id, GraphInlines::new());\n        }\n",
+  "        match self.node(from_id).line_id() {\n            Some(line_id) => {\n                self.lines[line_id as usize] = Line::new(line_id, GraphInlines::new());\n            }\n            None => {}\n        }\n", {"C04": 0, "C20": 0}),
+ ("benign_node_key_if_let", "crates/liwe/src/graph.rs",
+  "        match self.graph_node(id).key() {\n            Some(key) => key.clone(),\n            None => self.node_key(self.graph_node(id).prev_id().expect(\"to have a prev_id\")),\n        }",
+  "        if let Some(key) = self.graph_node(id).key() {\n            return key.clone();\n        }\n        self.node_key(self.graph_node(id).prev_id().expect(\"to have a prev_id\"))", {"C20": 0}),
+ ("benign_pop_block_else", "crates/liwe/src/markdown/reader.rs",
+  "        if self.blocks_stack.len() == 0 {\n            self.blocks.push(block);\n            return;\n        }\n\n        if self.top_block().is_container() {\n            self.top_block().append_block(block);\n        }",
+  "        if self.blocks_stack.is_empty() {\n            self.blocks.push(block);\n        } else if self.top_block().is_container() {\n            self.top_block().append_block(block);\n        }", {"C01": 0, "C03": 0}),
+ ("benign_set_next_id_arm_order", "crates/liwe/src/graph/graph_node.rs",
+  "            GraphNode::Section(section) => section.next = Some(next),\n            GraphNode::Quote(quote) => quote.next = Some(next),\n            GraphNode::BulletList(list) => list.next = Some(next),",
+  "            GraphNode::Quote(quote) => quote.next = Some(next),\n            GraphNode::BulletList(list) => list.next = Some(next),\n            GraphNode::Section(section) => section.next = Some(next),", {"C20": 0}),
+ ("benign_to_line_range_shadow", "crates/liwe/src/markdown/reader.rs",
+  "        if start == end {\n            end += 1;\n        }\n\n        start..end",
+  "        let end = if start == end { end + 1 } else { end };\n\n        start..end", {"C13": 0}),
+ ("benign_link_at_position_conjunct_order", "crates/liwe/src/model/document.rs",
+  "        if self.inline_range().contains(&position) && self.is_link() {", "        if self.is_link() && self.inline_range().contains(&position) {", {"C13": 0}),
+ ("benign_ranges_early_return_first", "crates/liwe/src/graph/sections_builder.rs",
+  "    let mut ranges: Vec<Range> = vec![];\n\n    if positions.is_empty() {\n        return vec![];\n    }\n",
+  "    if positions.is_empty() {\n        return vec![];\n    }\n\n    let mut ranges: Vec<Range> = vec![];\n", {"C07": 0, "C01": 0}),
+ ("benign_update_key_helper_extracted", "crates/liwe/src/graph.rs",
+  "        if id.is_some() {\n            self.arena.delete_branch(*id.unwrap());\n        }\n\n        self.from_markdown(key, content, MarkdownReader::new());\n\n        self\n    }\n",
+  "        if id.is_some() {\n            let old_root = *id.unwrap();\n            self.drop_old_version(old_root);\n        }\n\n        self.from_markdown(key, content, MarkdownReader::new());\n\n        self\n    }\n\n    fn drop_old_version(&mut self, root: NodeId) {\n        self.arena.delete_branch(root);\n    }\n", {"C04": 0, "C20": 0}),
+ ("update_key_helper_skips_first_note", "crates/liwe/src/graph.rs",
+  "        if id.is_some() {\n            self.arena.delete_branch(*id.unwrap());\n        }\n\n        self.from_markdown(key, content, MarkdownReader::new());\n\n        self\n    }\n",
+  "        if id.is_some() {\n            let old_root = *id.unwrap();\n            self.drop_old_version(old_root);\n        }\n\n        self.from_markdown(key, content, MarkdownReader::new());\n\n        self\n    }\n\n    fn drop_old_version(&mut self, root: NodeId) {\n        if root > 0 {\n            self.arena.delete_branch(root);\n        }\n    }\n", {"C04": 1}),
  ("update_key_skips_blank", "crates/liwe/src/graph.rs",
   "        self.from_markdown(key, content, MarkdownReader::new());\n\n        self", "        if !content.is_empty() {\n            self.from_markdown(key, content, MarkdownReader::new());\n        }\n\n        self", {"C20": 1, "C04": 1}),
  # benign refactorings: must not alarm
